@@ -229,6 +229,26 @@ func (e *Engine) VerifyProps(props []string, only map[string]bool, opts runOpts,
 	// solve
 	prelude := e.Prelude()
 	preludeQF := e.PreludeQF()
+	// vacuity guard: the global axioms (string theory, ghost axioms, literal facts) must not be
+	// contradictory - otherwise every obligation would be discharged vacuously
+	{
+		o := &Obligation{Name: "prelude/axioms-consistent", Kind: "cover", Func: "prelude", Props: props, Goal: "the global axioms are not contradictory", Cover: true, Query: "(check-sat)\n"}
+		var r, r2 SolverResult
+		var cw sync.WaitGroup
+		cw.Add(2)
+		go func() { defer cw.Done(); r = runSolver(solvers[0], prelude+"(check-sat)\n", 6000, false) }()
+		go func() { defer cw.Done(); r2 = runSolver(solvers[1], prelude+"(check-sat)\n", 6000, false) }()
+		cw.Wait()
+		o.Result = r
+		o.All = []SolverResult{r, r2}
+		if r.Verdict == "unsat" || r2.Verdict == "unsat" {
+			o.Verdict = "failed"
+			rep.Errors = append(rep.Errors, "the global axioms are contradictory (prelude unsat): every proof would be vacuous")
+		} else {
+			o.Verdict = "discharged"
+		}
+		rep.Obligations = append(rep.Obligations, o)
+	}
 	var wg sync.WaitGroup
 	sem := make(chan struct{}, opts.workers)
 	var mu sync.Mutex
